@@ -110,6 +110,15 @@ def tebd_registry():
 
     @model
     def executor_ctor(ip, args, kw):
+        """contract of concurrent.futures.ThreadPoolExecutor / ProcessPoolExecutor: max_workers is None or a positive integer
+        (ValueError otherwise)"""
+        mw = kw.get('max_workers', args[0] if args else None)
+        if mw is not None:
+            ok = (mw > 0) if isinstance(mw, int) and not isinstance(mw, bool) else None
+            if ok is None:
+                ok = ip.decide(to_int(mw) > 0, 'max_workers-positive')
+            if not ok:
+                raise PyRaise(ExcVal('ValueError', ('max_workers must be greater than 0',)))
         return Obj('Executor', {})
 
     @model
@@ -666,6 +675,9 @@ def targets(tier='quick'):
                 T.append(Target('tebd/layer[%s,%s]' % (par, ''.join(map(str, order))), q + 'apply_nn_gate_layer', scen_layer(par, order),
                                 post_layer, R, PROP, replay=rp))
     T.append(Target('tebd/layer[unknown mode]', q + 'apply_nn_gate_layer', scen_layer('gpu', (0, 1)), post_layer, R, PROP))
+    # a layer WITHOUT gates (the odd layer of a two-site chain) is a layer too: nothing changes, in every mode
+    for par in (None, 'multithread', 'multiprocess'):
+        T.append(Target('tebd/layer[%s,empty]' % par, q + 'apply_nn_gate_layer', scen_layer(par, ()), post_layer, R, PROP, replay=rp))
     RM = mps_registry()
     for nb in (1, 2, 3, 4, 5):
         T.append(Target('tebd/trotter-layers[bonds=%d]' % nb, 'mps_mpo.compute_trotter_layers', scen_trotter(nb), post_trotter, RM, PROP))
